@@ -5,6 +5,6 @@ CONSTANTS
   ClientHonest = 4
   Envs <- OneEnv
   AdvKinds <- AllAdv
-  MaxAdversarial = 2
+  MaxAdversarial = 1
   StrictVerify = TRUE
 INVARIANTS TypeOK ClaimAccepted HashMatches RightOperatorsPunished GateImpliesThreshold HonestAccepted
